@@ -176,8 +176,11 @@ func loadPools() *pools {
 		// JSON (appended to the JSON bodies below) they carry their own validateOpts member
 		for _, name := range []string{"bypass-origin", "bypass-destination", "custom-trace-numbers", "invalid-check-digit",
 			"allow-zero-batches", "bypass-origin-traces", "custom-trace-numbers", "bypass-destination"} {
-			g := gen.NeedsOptsOf(gr, gen.OptVariantByName(name))
-			if g == nil || len(g.IATBatches) > 0 || g.IsADV() {
+			// standard forward batches of SEC codes without Addenda02: the C05 view of the library oracle
+			// (storelib) models the trace number an entry gets from Batch.build, not its copy in Addenda02
+			base := gen.File(gr, gen.Opts{SECs: []string{ach.PPD, ach.CCD, ach.WEB, ach.CTX, ach.TEL, ach.CIE}, ForwardOnly: true, Addenda: true, MinBatches: 1, MaxBatches: 3, MaxEntries: 3})
+			g := gen.NeedsOptsVariant(gr, base, gen.OptVariantByName(name))
+			if g == nil {
 				continue
 			}
 			add("needs-opts-"+name, g)
